@@ -121,6 +121,8 @@ partial def pExpr : Sexp → P Expr
   | .list (.atom "callv" :: f :: args) => do pure (.callv (← pExpr f) (← pExprs args))
   | .list (.atom "mcall" :: r :: t :: n :: args) => do pure (.mcall (← pExpr r) (← pTy t) (← pName n) (← pExprs args))
   | .list (.atom "icall" :: r :: n :: args) => do pure (.icall (← pExpr r) (← pName n) (← pExprs args))
+  | .list [.atom "mval", r, t, n] => do pure (.mval (← pExpr r) (← pTy t) (← pName n))
+  | .list [.atom "imval", r, n] => do pure (.imval (← pExpr r) (← pName n))
   | .list (.atom "struct" :: fs) => do pure (.structLit (← pExprs fs))
   | .list (.atom "arr" :: es) => do pure (.arrLit (← pExprs es))
   | .list (.atom "slice" :: es) => do pure (.sliceLit (← pExprs es))
